@@ -722,14 +722,16 @@ class LanguageCsharp(Language):
 
                 classname = (classObj.NAME if not REALIZING_CLASS else REALIZING_CLASS)
                 # result = result + operation.VISIBILITY.lower() + " " + self.DeclareFunction(return_type, classname, operation.NAME, is_impl, params, classObj.PURE_VIRTUAL_INTERFACE or operation.VIRTUAL, operation.IS_STATIC, operation.IS_CONST).lstrip()
-                result = result + operation.VISIBILITY.lower() + " " + self.DeclareFunction(return_type, classname,
-                                                                                            operation.NAME, is_impl,
-                                                                                            params,
-                                                                                            operation.VIRTUAL,
-                                                                                            operation.IS_STATIC,
-                                                                                            False).lstrip()
-                if REALIZING_CLASS:
-                    result = result.replace("virtual","override")
+                declaration = self.DeclareFunction(return_type, classname,
+                                                   operation.NAME, is_impl,
+                                                   params,
+                                                   operation.VIRTUAL,
+                                                   operation.IS_STATIC,
+                                                   False).lstrip()
+                if REALIZING_CLASS and declaration.startswith("virtual "):
+                    # only the keyword: the word inside a name, a type or a comment stays as it is
+                    declaration = "override " + declaration[len("virtual "):]
+                result = result + operation.VISIBILITY.lower() + " " + declaration
                 if not classObj.PURE_VIRTUAL_INTERFACE or REALIZING_CLASS:
                     result = result + "\n"
                     result = result + "{\n"
